@@ -1,6 +1,117 @@
-(** C05 — property theorems (being filled in). *)
-From PV Require Import Lib.Common Model.C05_Latent.
-Theorem C05_placeholder_evalfn_def : forall To Ti Te wo wi we x l,
+(** C05 — selection objectives mean what they say in every decision encoding.  Property theorems only: statement,
+    [exact] of a lemma proved in Proofs/C05_Latent.v, [Print Assumptions].
+    Model: Model/C05_Latent.v ([latent n fd d] = latentfn of the problem classes of family [fd] on the decision [d];
+    [DSub s] = subset encoding, [DVec x] = integer-count / binary-indicator / real-contribution encoding;
+    [res_eq] = same shape and equal rationals; norms are represented by their squares). *)
+From Coq Require Import PrimFloat Permutation.
+From PV Require Import Lib.Common Lib.FloatK Model.C05_Latent Proofs.C05_Latent.
+Local Open Scope Q_scope.
+
+(** Every family's subset formula is its contribution-vector formula ("the definition") evaluated at
+    multiplicity / k — for every number of candidates, traits, markers, every data matrix and every non-empty
+    selection (for the family criterion: without repeated members). *)
+Theorem C05_subset_is_contribution_form : forall n fd s, has_vec fd = true -> s <> [] -> in_range n s -> fam_ok fd s ->
+  res_eq (latent n fd (DSub s)) (vec_form n fd (contrib_subset n s)).
+Proof. exact subset_is_vec_form. Qed.
+Print Assumptions C05_subset_is_contribution_form.
+
+(** The subset, integer-count, real-contribution and (for a duplicate-free subset) binary-indicator encodings of the
+    same parental contributions give identical latent vectors, in every family that has vector encodings. *)
+Theorem C05_encodings_agree : forall n fd s, has_vec fd = true -> s <> [] -> in_range n s -> fam_ok fd s ->
+  res_eq (latent n fd (DVec (counts n s))) (latent n fd (DSub s)) /\
+  res_eq (latent n fd (DVec (contrib_subset n s))) (latent n fd (DSub s)) /\
+  (NoDup s -> res_eq (latent n fd (DVec (indicator n s))) (latent n fd (DSub s))).
+Proof. exact latent_encodings_agree. Qed.
+Print Assumptions C05_encodings_agree.
+
+(** the normalisation itself: counts normalise to multiplicity / k, an indicator is the count vector of a set *)
+Theorem C05_counts_normalise : forall n s, s <> [] -> in_range n s -> Forall2 Qeq (contrib_guard (counts n s)) (contrib_subset n s).
+Proof. exact contrib_counts. Qed.
+Print Assumptions C05_counts_normalise.
+Theorem C05_indicator_is_counts : forall n s, NoDup s -> indicator n s = counts n s.
+Proof. exact indicator_counts. Qed.
+Print Assumptions C05_indicator_is_counts.
+
+(** with a repeated member the family criterion's subset class (assignment instead of accumulation) leaves the
+    integer-count reading: the hypothesis [fam_ok] above cannot be dropped (such listings are outside the subset
+    decision space, so this is not a violation of the property) *)
+Theorem C05_family_subset_repeat_refuted :
+  ~ Forall2 Qeq (fam_subset 2 1 [[1]; [1]] [0%Z; 1%Z] [0%nat; 0%nat]) (fam_vec 2 1 [[1]; [1]] [0%Z; 1%Z] (contrib_subset 2 [0%nat; 0%nat])).
+Proof. exact fam_subset_repeat_differs. Qed.
+Print Assumptions C05_family_subset_repeat_refuted.
+
+(** Values do not depend on the order in which a subset is listed (all subset classes except the genotype builder,
+    whose sort is covered by the correspondence only). *)
+Theorem C05_order_invariant : forall n fd s s', not_gb fd -> Permutation s s' -> res_eq (latent n fd (DSub s)) (latent n fd (DSub s')).
+Proof. exact latent_order_invariant. Qed.
+Print Assumptions C05_order_invariant.
+
+(** Values do not depend on positive rescaling of a contribution vector — outside the source's guard
+    |sum x| < 1e-10 (both the vector and its rescaling), which is the exact region where the clause fails: *)
+Theorem C05_scale_invariant_partial : forall n fd a x, 0 < a -> guard_eps <= Qabs' (qsum x) -> guard_eps <= Qabs' (qsum (map (Qmult a) x)) ->
+  res_eq (latent n fd (DVec (map (Qmult a) x))) (latent n fd (DVec x)).
+Proof. exact latent_scale_invariant. Qed.
+Print Assumptions C05_scale_invariant_partial.
+Theorem C05_scale_invariant_guard_refuted :
+  exists a x, 0 < a /\ 0 < qsum x /\ Qabs' (qsum x) < guard_eps /\ ~ Forall2 Qeq (contrib_guard (map (Qmult a) x)) (contrib_guard x).
+Proof. exact contrib_guard_inside_not_invariant. Qed.
+Print Assumptions C05_scale_invariant_guard_refuted.
+
+(** reported objectives and constraint violations are the declared weights times the declared transformations
+    of the latent vector, for arbitrary transformation functions *)
+Theorem C05_evalfn_def : forall To Ti Te wo wi we x l,
   evalfn To Ti Te wo wi we x l = (map2 Qmult wo (To x l), map2 Qmult wi (Ti x l), map2 Qmult we (Te x l)).
-Proof. reflexivity. Qed.
-Print Assumptions C05_placeholder_evalfn_def.
+Proof. exact evalfn_def. Qed.
+Print Assumptions C05_evalfn_def.
+
+(** the kinship factor: ||C c||^2 = c' (C'C) c for every factor C (any shape) and every contribution vector *)
+Theorem C05_quad_is_cKc : forall n C c, normsq_vec n C c == qform n (gram n C) c.
+Proof. exact quad_is_cKc. Qed.
+Print Assumptions C05_quad_is_cKc.
+
+(** allele availability (MOGS): the binary64 tests on the rounded-reciprocal frequency equal the definition on the
+    allele counts for every selection of at most 1024 chromosome copies whose size N satisfies fl(fl(1/N)*N) = 1 ... *)
+Theorem C05_mogs_availability_partial : forall pl G w tf p t s,
+  (1 <= popsize pl s <= 1024)%Z -> size_ok (popsize pl s) = true -> geno_ok pl G s p ->
+  mogs_pau_code pl G w tf p t s = pau_def pl G w tf p t s.
+Proof. exact mogs_pau_exact. Qed.
+Print Assumptions C05_mogs_availability_partial.
+(** ... and fail at the other sizes (49 copies all carrying the allele, target 1/2: reported available) *)
+Theorem C05_pfreq_reciprocal_refuted : exists c N tfv, (1 <= N <= 1024)%Z /\ (0 <= c <= N)%Z /\ t_het tfv = true /\
+  mogs_unavail_code (frecipZ c N) tfv <> unavail_def c N tfv /\ pau_unavail_code (frecipZ c N) tfv <> unavail_def c N tfv.
+Proof. exact pfreq_reciprocal_refuted. Qed.
+Print Assumptions C05_pfreq_reciprocal_refuted.
+Theorem C05_bad_sizes_256 : filter (fun N => negb (size_ok (Z.of_nat N))) (seq 1 256) = [49; 98; 103; 107; 161; 187; 196; 197; 206; 214; 237; 239; 249; 253]%nat.
+Proof. exact bad_sizes_256. Qed.
+Print Assumptions C05_bad_sizes_256.
+(** allele availability (PAU): right for targets strictly between 0 and 1, wrong for a target of exactly 1 or 0
+    because the setter computes tmajor with the tminor test *)
+Theorem C05_pau_availability_partial : forall pl G w tf p t s,
+  (1 <= popsize pl s <= 1024)%Z -> size_ok (popsize pl s) = true -> geno_ok pl G s p -> targets_het tf p t ->
+  pau_code pl G w tf p t s = pau_def pl G w tf p t s.
+Proof. exact pau_partial. Qed.
+Print Assumptions C05_pau_availability_partial.
+Theorem C05_pau_tmajor_refuted : exists c N tfv, (1 <= N <= 1024)%Z /\ (0 <= c <= N)%Z /\ size_ok N = true /\
+  pau_unavail_code (frecipZ c N) tfv <> unavail_def c N tfv.
+Proof. exact pau_tmajor_refuted. Qed.
+Print Assumptions C05_pau_tmajor_refuted.
+
+(** non-vacuity: concrete values meeting the hypotheses used above *)
+Example C05_hyps_satisfiable :
+  has_vec (FOcs 1 [[1]; [2]; [3]] [[1; 1#2; 0]; [0; 1; 1#4]; [0; 0; 1]]) = true /\ in_range 3 [2; 0]%nat /\ [2; 0]%nat <> [] /\ NoDup [2; 0]%nat
+  /\ fam_ok (FFam 1 [[1]; [2]; [3]] [5; 3; 5]%Z) [2; 0]%nat /\ not_gb (FMgr [[1]]) /\ Permutation [2; 0]%nat [0; 2]%nat
+  /\ guard_eps <= Qabs' (qsum [1#4; 1#2]) /\ guard_eps <= Qabs' (qsum (map (Qmult 3) [1#4; 1#2]))
+  /\ (1 <= popsize 2 [0; 1; 2]%nat <= 1024)%Z /\ size_ok (popsize 2 [0; 1; 2]%nat) = true
+  /\ geno_ok 2 [[2; 0]; [1; 1]; [2; 0]]%Z [0; 1; 2]%nat 2 /\ targets_het [[1#2]; [1#4]] 2 1.
+Proof.
+  repeat match goal with |- _ /\ _ => split end; try reflexivity; try discriminate; try exact I.
+  - intros i [<-|[<-|[]]]; lia.
+  - repeat constructor; cbn; intuition lia.
+  - cbn. repeat constructor; cbn; intuition lia.
+  - apply perm_swap.
+  - vm_compute. discriminate.
+  - vm_compute. discriminate.
+  - vm_compute. split; discriminate.
+  - intros j Hj. destruct j as [|[|j]]; [vm_compute; split; discriminate | vm_compute; split; discriminate | lia].
+  - intros j q Hj. destruct j as [|[|j]]; [| |lia]; destruct q as [|q]; try reflexivity.
+Qed.
